@@ -52,7 +52,29 @@ Proof. destruct m; cbn; intros ->; reflexivity. Qed.
 
 (* ---------- validity never fails on a transformed message if it did not on the
    original: success depends only on (tc, rcode, question) ------------------------ *)
-Definition shape (m : msg) := (m_tc m, m_rcode m, m_q m, m_broken m).
+Definition shape (m : msg) := (m_tc m, class_rcode m, m_q m, m_broken m).
+
+(* stripping keeps the OPT record, hence the extended rcode *)
+Lemma first_opt_filter l : first_opt (filter keep_rr l) = first_opt l.
+Proof.
+  unfold first_opt. induction l as [|r t IH]; [reflexivity|]. cbn [filter find].
+  destruct (r_type r =? rtype_opt) eqn:E.
+  - assert (K : keep_rr r = true).
+    { apply N.eqb_eq in E. unfold keep_rr. rewrite E.
+      destruct gen_soa_ns_not_dnssec as (_ & _ & ->). reflexivity. }
+    rewrite K. cbn [find]. rewrite E. reflexivity.
+  - destruct (keep_rr r); cbn [find]; [rewrite E|]; exact IH.
+Qed.
+
+Lemma class_rcode_ar m m' : m_rcode m' = m_rcode m -> first_opt (m_ar m') = first_opt (m_ar m) ->
+  class_rcode m' = class_rcode m.
+Proof. unfold class_rcode, opt_rcode. intros -> ->. reflexivity. Qed.
+
+Lemma shape_strip ad m : shape (remove_dnssec ad m) = shape m.
+Proof.
+  unfold shape. rewrite (class_rcode_ar m (remove_dnssec ad m)); [reflexivity|reflexivity|].
+  cbn [remove_dnssec m_ar]. apply first_opt_filter.
+Qed.
 
 Lemma classify_ok_shape m m' : m_q m = m_q m' ->
   (exists c, classify_no_error m = Ok c) -> exists c, classify_no_error m' = Ok c.
@@ -70,7 +92,7 @@ Proof.
   destruct (m_tc m && negb (c_trunc cfg)); [eauto|].
   destruct (m_broken m); [intros [v H]; discriminate|].
   unfold class_cap; rewrite <- Hrc.
-  destruct (m_rcode m) as [|p].
+  destruct (class_rcode m) as [|p].
   - intros [v H].
     destruct (classify_no_error m) as [c| | |] eqn:C; cbn [bind] in H; try discriminate.
     destruct (classify_ok_shape m m' Hq (ex_intro _ c C)) as [c' ->]. cbn [bind]. eauto.
@@ -78,7 +100,10 @@ Proof.
 Qed.
 
 Lemma shape_xform x m : shape (xform x m) = shape m.
-Proof. reflexivity. Qed.
+Proof.
+  unfold shape. rewrite (class_rcode_ar m (xform x m)); [reflexivity|reflexivity|].
+  cbn [xform m_ar]. destruct (x_strip x); [apply first_opt_filter|reflexivity].
+Qed.
 
 (* ---------- compatibility of keys, provenance ------------------------------------- *)
 Definition compat (k0 k : key) (x : xf) (u0 : resp) : Prop :=
@@ -168,7 +193,7 @@ Proof.
   intros Hv. unfold update_message, remove_dnssec_o.
   destruct (v_resp v) as [m|e]; [|left; eauto]. cbn [resp_has_bad].
   destruct (has_bad m); cbn [bind]; [right; auto|]. left.
-  destruct (validity_ok_shape cfg m (remove_dnssec ad m) eq_refl Hv) as [val ->]. cbn [bind]. eauto.
+  destruct (validity_ok_shape cfg m (remove_dnssec ad m) (eq_sym (shape_strip ad m)) Hv) as [val ->]. cbn [bind]. eauto.
 Qed.
 
 Lemma cache_insert_spec cfg k v c c' :
